@@ -1217,3 +1217,52 @@ def literal_text(f, atom, polarity):
     if t[0] == 'atom':
         return t[1], polarity
     return canon(f, atom), polarity
+
+
+# ------------------------------------------------------- "exists" predicates
+def exists_form(an, f):
+    """If function f answers "some element x of ITER satisfies C(x)", in any
+    of the spellings
+        return len([x for x in ITER if C]) > 0      return any(C for x in ITER)
+        return K in [E for x in ITER]               (C is E == K)
+        for x in ITER: if C: return True ... return False
+    return (text of ITER, element variable, C as an AST); else None.
+    (`return any(...)` reaches here as a loop: see sa/inline.py.)"""
+    body = [st for st in f.node.body
+            if not (isinstance(st, ast.Expr) and
+                    isinstance(st.value, ast.Constant))]
+    # leading `if p is None: p = default` re-bindings of a parameter are
+    # part of the iterable's definition, not of the predicate
+    while body and isinstance(body[0], ast.If) and not body[0].orelse and \
+            all(isinstance(x, ast.Assign) for x in body[0].body):
+        body = body[1:]
+    if len(body) == 1 and isinstance(body[0], ast.Return):
+        e = body[0].value
+        if isinstance(e, ast.Compare) and len(e.ops) == 1:
+            a, op, b = e.left, e.ops[0], e.comparators[0]
+            if isinstance(op, (ast.Gt, ast.NotEq)) and is_const(b, 0) and \
+                    isinstance(a, ast.Call) and src(a.func) == 'len' and \
+                    len(a.args) == 1 and isinstance(a.args[0], ast.ListComp):
+                lc = a.args[0]
+                g = lc.generators[0]
+                if len(lc.generators) == 1 and len(g.ifs) == 1 and \
+                        src(lc.elt) == src(g.target):
+                    return src(g.iter), src(g.target), g.ifs[0]
+            if isinstance(op, ast.In) and isinstance(
+                    b, (ast.ListComp, ast.GeneratorExp, ast.SetComp)) and \
+                    len(b.generators) == 1 and not b.generators[0].ifs:
+                g = b.generators[0]
+                cond = ast.Compare(left=b.elt, ops=[ast.Eq()],
+                                   comparators=[a])
+                return src(g.iter), src(g.target), ast.copy_location(cond, e)
+        return None
+    if len(body) == 2 and isinstance(body[0], ast.For) and \
+            isinstance(body[1], ast.Return) and \
+            is_const(body[1].value, False) and not body[0].orelse and \
+            len(body[0].body) == 1 and isinstance(body[0].body[0], ast.If):
+        lp, cond = body[0], body[0].body[0]
+        if not cond.orelse and len(cond.body) == 1 and \
+                isinstance(cond.body[0], ast.Return) and \
+                is_const(cond.body[0].value, True):
+            return src(lp.iter), src(lp.target), cond.test
+    return None
